@@ -68,7 +68,7 @@ func replayMain(run *mc.Run, path string) {
 			os.Exit(3)
 		}
 		x := mc.NewExec(c.Choices)
-		o := execTree(&c, x)
+		o := execTreeSafe(&c, x)
 		fmt.Printf("program: %s\nconfig:  %s\nstatements through: %s\nfault scope: %s, choices %v\n", c.Prog, cfgString(c.Cfg, c.Dial), deriveName[c.Derive], c.Scope, c.Choices)
 		fmt.Println(strings.Join(o.Log, "\n"))
 		fmt.Printf("outcome %s; table after the outermost block %s, reference %s\n", o.Outcome, keyList(o.Observed), keyList(o.Final))
@@ -87,7 +87,7 @@ func replayMain(run *mc.Run, path string) {
 			fmt.Fprintln(os.Stderr, "HARNESS-ERROR:", err)
 			os.Exit(3)
 		}
-		w := &mworker{cfg: c.Cfg, dial: c.Dial, der: c.Derive}
+		w := &mworker{cfg: c.Cfg, dial: c.Dial, der: c.Derive, afterFailedBegin: c.AfterFailedBegin}
 		r := w.step(c.Ops, c.Fault)
 		fmt.Printf("sequence: %s\nfault point in last operation: %d (injected: %v)\nconfig:   %s\nwrites through: %s\n%s\n", opsString(c.Ops), c.Fault, r.injected, cfgString(c.Cfg, c.Dial), deriveName[c.Derive], strings.Join(r.log, "\n"))
 		if r.harnessErr != "" {
@@ -289,7 +289,7 @@ func main() {
 						return &TreeCase{Part: "tree", Prog: j.prog.clone(), Cfg: j.cfg, Dial: j.dial, Scope: j.scope, Derive: j.der}
 					}
 					e := &mc.Explorer{Bound: eb, Workers: 1, Deadline: deadline,
-						Run: func(x *mc.Exec) interface{} { return execTree(mk(x), x) },
+						Run: func(x *mc.Exec) interface{} { return execTreeSafe(mk(x), x) },
 					}
 					e.Check = func(x *mc.Exec, ob interface{}) {
 						o := ob.(*treeObs)
@@ -358,7 +358,7 @@ func main() {
 							fp := o.fingerprint()
 							for i := 0; i < 4; i++ {
 								x2 := mc.NewExec(c.Choices)
-								o2 := execTree(mk(x2), x2)
+								o2 := execTreeSafe(mk(x2), x2)
 								if o2.fingerprint() != fp || x2.Diverged != "" {
 									run.HarnessError("nondeterministic execution: %s choices %v: %q vs %q %s", c.Readable, c.Choices, fp, o2.fingerprint(), x2.Diverged)
 									return
